@@ -116,6 +116,14 @@ claim("C01",
       "Known finding (class split with canary): MaxExportBatchSize == 0 exports batches of 1 and, on drain, of any size.",
       _TB + "sync.Mutex/atomic semantics and channel send/receive pairing assumed; timers, contexts, the exporter and otel.Handle are unknown calls (frames and no-panic of these functions are marked unchecked). NOT decided (see spec/C01.json): delivery by the time ForceFlush/Shutdown returns, nothing after Shutdown, ForceFlush/Shutdown bodies.",
       "DESIGN.md 4 C01, 10.2")
+claim("C11",
+      "Partial. Proved for every byte string: the baggage parsers (skipSpace, validateKey/validateValue and their per-character tests, parsePropertyInternal, parseProperty, parseMember, replaceInvalidUTF8Sequences, Parse) never index or slice out of range - "
+      "the rune loops advance a byte index once per rune, which is only right because every accepted character is one byte long (loop invariant keyEnd == keyStart + byte offset); an accepted key is a non-empty run of one-byte key characters, accepted values are valid UTF-8 (valid input unchanged); "
+      "limits: a member over 4096 bytes and a header over 8192 bytes are rejected, Parse and New return at most 180 members, New at most 8192 bytes and only members that carry data. "
+      "Immutability, for every map content: SetMember and DeleteMember write no existing map, return a fresh map holding exactly the old entries plus/minus the member (uses the visited-set model of range over a map; an obligation shows the map ranged over is not the one updated). "
+      "Known finding (class split with canary): New does not enforce the 4096-byte member limit.",
+      _TB + "library models for strings.Cut/TrimSpace/Split, utf8.*, strings.Builder, url.PathUnescape (arbitrary result); two assumed axioms about UTF-8 validity; Member.String/Baggage.String trusted as deterministic. NOT decided (see spec/C11.json): the header round trip / Inject-Extract identity, last-duplicate-wins, serialisation layout and valueEscape.",
+      "DESIGN.md 4 C11, 10.2")
 _todo = "check not built yet in this session (engine exists; contracts for this property's functions still to be written)"
-for _p in ["C11"]:
+for _p in []:
     na(_p, _todo)
